@@ -41,6 +41,12 @@ CHECKS["C08"] = dict(
    text="Round trip: every chunk class x flags x boundary field products, DATA user data of every length 1..1200, parameter lists of 0-3 parameters with every value length 0..9, SACK gap/duplicate lists 0-4, FORWARD-TSN streams 0-4, RE-CONFIG parameter classes: field equality and byte-identical re-serialisation. Corruption: for one packet of each of the 15 chunk types every burst - all start bits x lengths 1..32 x all 2^(len-2) inner patterns for len <= 11 (quick) / 16 (thorough), 3 structured patterns above - must raise the checksum ValueError before any chunk object is constructed (CHUNK_TYPES is spied).",
    note="google_crc32c arithmetic trusted; values between listed boundaries not enumerated; bursts longer than the full-pattern bound use 3 structured inner patterns.",
    design="2/C08")
+CHECKS["C16"] = dict(
+   level="model_checking",
+   technique="bounded-exhaustive enumeration of NAL-unit sequences and VP8 buffers (all sequences up to length 3 over boundary sizes, all lengths 0..3000, all 2^15 picture ids) through the real packetiser and depacketiser",
+   text="Every sequence of 1-3 NAL units over the listed boundary sizes (around 1297..1301, multiples of the fragment size, 60000) x header bits x start-code forms, aggregation-count boundary sequences of up to 12 NALs, and every VP8 buffer length 0..3000 (+3897..3903, 60000) x picture ids at the 7/15-bit boundary go through the real pack()/depayload code; oracle: payload <= 1300, exact bitstream reconstruction, FU-A S/E markers and header bits, STAP-A members, VP8 S bit and picture id. Descriptor round trip over the complete field product including all 2^15 picture ids.",
+   note="NAL bodies contain no zero bytes (emulation prevention is the encoder's job); sizes between listed boundaries not enumerated.",
+   design="2/C16")
 NOT_YET = {}
 
 def main():
